@@ -6,6 +6,7 @@ package tlb
 // Nothing here calls the codec under test except where a helper explicitly says so.
 
 import (
+	"bytes"
 	"fmt"
 	"math/big"
 	"math/rand"
@@ -345,84 +346,119 @@ func vhOpen(v reflect.Value) reflect.Value {
 // Everything else, including the SumType field of unions, unselected union members, Maybe.Value of absent optionals,
 // nil-ness of pointers and all unexported fields (hashmap keys/values, VmCellSlice, ...) is compared strictly.
 func vhDiff(a, b any) string {
-	if reflect.TypeOf(a) != reflect.TypeOf(b) {
-		return fmt.Sprintf("types differ: %T vs %T", a, b)
+	ds := vhDiffAll(a, b)
+	if len(ds) == 0 {
+		return ""
 	}
-	return vhDiffV(vhAddressable(a), vhAddressable(b), "")
+	return ds[0].String()
 }
 
-func vhDiffV(a, b reflect.Value, path string) string {
+// vhDelta is one difference found by vhDiffAll: where, the Go type of the differing node, and the original node.
+type vhDelta struct {
+	Path string
+	Type reflect.Type
+	Orig reflect.Value
+	Msg  string
+}
+
+func (d vhDelta) String() string { return d.Path + ": " + d.Msg }
+
+// vhDiffAll returns all differences (at most 32), see vhDiff for the comparison rules.
+func vhDiffAll(a, b any) []vhDelta {
+	if reflect.TypeOf(a) != reflect.TypeOf(b) {
+		return []vhDelta{{Msg: fmt.Sprintf("types differ: %T vs %T", a, b)}}
+	}
+	var out []vhDelta
+	vhDiffV(vhAddressable(a), vhAddressable(b), "", &out)
+	return out
+}
+
+func vhDiffV(a, b reflect.Value, path string, out *[]vhDelta) {
+	if len(*out) >= 32 {
+		return
+	}
 	a, b = vhOpen(a), vhOpen(b)
 	t := a.Type()
+	diff := func(format string, args ...any) {
+		*out = append(*out, vhDelta{Path: path, Type: t, Orig: a, Msg: fmt.Sprintf(format, args...)})
+	}
 	switch {
 	case t.ConvertibleTo(vhCellType) && t.Kind() == reflect.Struct:
 		ca := a.Convert(vhCellType).Interface().(boc.Cell)
 		cb := b.Convert(vhCellType).Interface().(boc.Cell)
 		ta, tb := vhViewTree(&ca), vhViewTree(&cb)
 		if ta != tb {
-			return fmt.Sprintf("%s: cell %s != %s", path, ta, tb)
+			diff("cell %s != %s", ta, tb)
 		}
-		return ""
+		return
 	case t.ConvertibleTo(vhBitsType) && t.Kind() == reflect.Struct:
 		ba := a.Convert(vhBitsType).Interface().(boc.BitString)
 		bb := b.Convert(vhBitsType).Interface().(boc.BitString)
 		sa, sb := vhBitsOf(ba), vhBitsOf(bb)
 		if sa != sb {
-			return fmt.Sprintf("%s: bits %s(%d) != %s(%d)", path, vhBin2Hex(sa), len(sa), vhBin2Hex(sb), len(sb))
+			diff("bits %s(%d) != %s(%d)", vhBin2Hex(sa), len(sa), vhBin2Hex(sb), len(sb))
 		}
-		return ""
+		return
 	case t.ConvertibleTo(vhBigIntType) && t.Kind() == reflect.Struct:
 		ia := a.Convert(vhBigIntType).Interface().(big.Int)
 		ib := b.Convert(vhBigIntType).Interface().(big.Int)
 		if ia.Cmp(&ib) != 0 {
-			return fmt.Sprintf("%s: %s != %s", path, ia.String(), ib.String())
+			diff("%s != %s", ia.String(), ib.String())
 		}
-		return ""
+		return
 	}
 	switch t.Kind() {
 	case reflect.Bool:
 		if a.Bool() != b.Bool() {
-			return fmt.Sprintf("%s: %v != %v", path, a.Bool(), b.Bool())
+			diff("%v != %v", a.Bool(), b.Bool())
 		}
 	case reflect.Int, reflect.Int8, reflect.Int16, reflect.Int32, reflect.Int64:
 		if a.Int() != b.Int() {
-			return fmt.Sprintf("%s: %d != %d", path, a.Int(), b.Int())
+			diff("%d != %d", a.Int(), b.Int())
 		}
 	case reflect.Uint, reflect.Uint8, reflect.Uint16, reflect.Uint32, reflect.Uint64, reflect.Uintptr:
 		if a.Uint() != b.Uint() {
-			return fmt.Sprintf("%s: %d != %d", path, a.Uint(), b.Uint())
+			diff("%d != %d", a.Uint(), b.Uint())
 		}
 	case reflect.String:
 		if a.String() != b.String() {
-			return fmt.Sprintf("%s: %q != %q", path, a.String(), b.String())
+			diff("%q != %q", a.String(), b.String())
 		}
 	case reflect.Func:
-		return ""
 	case reflect.Pointer:
 		if a.IsNil() != b.IsNil() {
-			return fmt.Sprintf("%s: nil-ness differs: original nil=%v decoded nil=%v", path, a.IsNil(), b.IsNil())
+			diff("nil-ness differs: original nil=%v decoded nil=%v", a.IsNil(), b.IsNil())
+			return
 		}
-		if a.IsNil() {
-			return ""
+		if !a.IsNil() {
+			vhDiffV(a.Elem(), b.Elem(), path, out)
 		}
-		return vhDiffV(a.Elem(), b.Elem(), path)
 	case reflect.Slice:
 		if a.Len() != b.Len() {
-			return fmt.Sprintf("%s: len %d != %d", path, a.Len(), b.Len())
+			diff("len %d != %d", a.Len(), b.Len())
+			return
+		}
+		if t.Elem().Kind() == reflect.Uint8 {
+			if !bytes.Equal(a.Bytes(), b.Bytes()) {
+				diff("bytes %x != %x", a.Bytes(), b.Bytes())
+			}
+			return
 		}
 		for i := 0; i < a.Len(); i++ {
-			if d := vhDiffV(a.Index(i), b.Index(i), fmt.Sprintf("%s[%d]", path, i)); d != "" {
-				return d
-			}
+			vhDiffV(a.Index(i), b.Index(i), fmt.Sprintf("%s[%d]", path, i), out)
 		}
 	case reflect.Array:
-		for i := 0; i < a.Len(); i++ {
-			if d := vhDiffV(a.Index(i), b.Index(i), fmt.Sprintf("%s[%d]", path, i)); d != "" {
-				if t.Elem().Kind() == reflect.Uint8 {
-					return fmt.Sprintf("%s: byte array differs at %d", path, i)
+		if t.Elem().Kind() == reflect.Uint8 {
+			for i := 0; i < a.Len(); i++ {
+				if a.Index(i).Uint() != b.Index(i).Uint() {
+					diff("byte array differs at index %d", i)
+					return
 				}
-				return d
 			}
+			return
+		}
+		for i := 0; i < a.Len(); i++ {
+			vhDiffV(a.Index(i), b.Index(i), fmt.Sprintf("%s[%d]", path, i), out)
 		}
 	case reflect.Struct:
 		for i := 0; i < t.NumField(); i++ {
@@ -430,23 +466,17 @@ func vhDiffV(a, b reflect.Value, path string) string {
 			if name == "hash" || name == "lazySourceBoc" {
 				continue
 			}
-			if d := vhDiffV(a.Field(i), b.Field(i), path+"."+name); d != "" {
-				return d
-			}
+			vhDiffV(a.Field(i), b.Field(i), path+"."+name, out)
 		}
 	case reflect.Interface:
 		if a.IsNil() != b.IsNil() {
-			return fmt.Sprintf("%s: interface nil-ness differs", path)
-		}
-		if !a.IsNil() {
-			if !reflect.DeepEqual(a.Interface(), b.Interface()) {
-				return fmt.Sprintf("%s: interface values differ", path)
-			}
+			diff("interface nil-ness differs")
+		} else if !a.IsNil() && !reflect.DeepEqual(a.Interface(), b.Interface()) {
+			diff("interface values differ")
 		}
 	default:
-		return fmt.Sprintf("%s: unsupported kind %v", path, t.Kind())
+		diff("unsupported kind %v", t.Kind())
 	}
-	return ""
 }
 
 // vhDump renders a value for failure messages (cells as trees, big ints in decimal, byte arrays in hex).
@@ -599,4 +629,209 @@ func vhRandCell(rng *rand.Rand, d int) *boc.Cell {
 	}
 	c, _ := vhCellFromBits(vhRandBits(rng, nb), refs...)
 	return c
+}
+
+// ---- reference dictionary codec, written from the TON TL-B schema (used by C04 and C05) ----
+//
+//	hm_edge#_ {n:#} {X:Type} {l:#} {m:#} label:(HmLabel ~l n) {n = (~m) + l} node:(HashmapNode m X) = Hashmap n X;
+//	hmn_leaf#_ {X:Type} value:X = HashmapNode 0 X;
+//	hmn_fork#_ {n:#} {X:Type} left:^(Hashmap n X) right:^(Hashmap n X) = HashmapNode (n + 1) X;
+//	hml_short$0 {m:#} {n:#} len:(Unary ~n) {n <= m} s:(n * Bit) = HmLabel ~n m;
+//	hml_long$10 {m:#} n:(#<= m) s:(n * Bit) = HmLabel ~n m;
+//	hml_same$11 {m:#} v:Bit n:(#<= m) = HmLabel ~n m;
+
+// vhDictLeaf is one key -> value pair; the value is the remainder of the leaf cell (bits and refs).
+type vhDictLeaf struct {
+	Key     string // key bits
+	ValBits string
+	ValRefs []*boc.Cell
+}
+
+func (l vhDictLeaf) valString() string {
+	s := vhBin2Hex(l.ValBits)
+	for _, r := range l.ValRefs {
+		s += "^" + vhTree(r)
+	}
+	return s
+}
+
+// vhParseLabel parses an HmLabel ~l m at the start of bits; returns kind ("short","long","same"), the label, the rest.
+func vhParseLabel(bits string, m int) (kind, label, rest string, err error) {
+	need := func(n int) error {
+		if len(bits) < n {
+			return fmt.Errorf("label: cell too short")
+		}
+		return nil
+	}
+	if err = need(1); err != nil {
+		return
+	}
+	k := vhLenBits(m)
+	if bits[0] == '0' {
+		i := 1
+		for {
+			if i >= len(bits) {
+				return "", "", "", fmt.Errorf("label: unterminated unary")
+			}
+			if bits[i] == '0' {
+				break
+			}
+			i++
+		}
+		l := i - 1
+		if l > m {
+			return "", "", "", fmt.Errorf("label: short label longer than %d", m)
+		}
+		if len(bits) < i+1+l {
+			return "", "", "", fmt.Errorf("label: cell too short")
+		}
+		return "short", bits[i+1 : i+1+l], bits[i+1+l:], nil
+	}
+	if err = need(2); err != nil {
+		return
+	}
+	if bits[1] == '0' {
+		if err = need(2 + k); err != nil {
+			return
+		}
+		l64, _ := strconv.ParseUint("0"+bits[2:2+k], 2, 32)
+		l := int(l64)
+		if l > m {
+			return "", "", "", fmt.Errorf("label: long label longer than %d", m)
+		}
+		if err = need(2 + k + l); err != nil {
+			return
+		}
+		return "long", bits[2+k : 2+k+l], bits[2+k+l:], nil
+	}
+	if err = need(3 + k); err != nil {
+		return
+	}
+	l64, _ := strconv.ParseUint("0"+bits[3:3+k], 2, 32)
+	l := int(l64)
+	if l > m {
+		return "", "", "", fmt.Errorf("label: same label longer than %d", m)
+	}
+	return "same", strings.Repeat(string(bits[2]), l), bits[3+k:], nil
+}
+
+// vhDictParse parses a (Hashmap n X) whose hm_edge starts at the given cell view. Leaves are appended in tree order
+// (left before right), the label kind of every edge is appended to kinds.
+func vhDictParse(bits string, refs []*boc.Cell, n int, prefix string, leaves *[]vhDictLeaf, kinds *[]string) error {
+	kind, label, rest, err := vhParseLabel(bits, n)
+	if err != nil {
+		return err
+	}
+	if kinds != nil {
+		*kinds = append(*kinds, kind)
+	}
+	m := n - len(label)
+	if m == 0 {
+		*leaves = append(*leaves, vhDictLeaf{Key: prefix + label, ValBits: rest, ValRefs: refs})
+		return nil
+	}
+	if len(refs) != 2 || rest != "" {
+		return fmt.Errorf("fork node at prefix %q has %d refs and %d extra bits", prefix+label, len(refs), len(rest))
+	}
+	for i, r := range refs {
+		if r.CellType() != boc.OrdinaryCell {
+			return fmt.Errorf("exotic cell inside dictionary")
+		}
+		if err := vhDictParse(vhCellBits(r), r.Refs(), m-1, prefix+label+strconv.Itoa(i), leaves, kinds); err != nil {
+			return err
+		}
+	}
+	return nil
+}
+
+// vhDictParseE parses (HashmapE n X) given the root ref (nil = empty).
+func vhDictParseCell(root *boc.Cell, n int) ([]vhDictLeaf, []string, error) {
+	var leaves []vhDictLeaf
+	var kinds []string
+	err := vhDictParse(vhCellBits(root), root.Refs(), n, "", &leaves, &kinds)
+	return leaves, kinds, err
+}
+
+// vhCanonicalKind is the label form chosen by the reference implementation (crypto/vm/dict.cpp, append_dict_label):
+// the shortest of the three forms.
+func vhCanonicalKind(label string, m int) string {
+	k := vhLenBits(m)
+	l := len(label)
+	same := l > 0 && strings.Count(label, label[:1]) == l
+	if same && l > 1 && k < 2*l-1 {
+		return "same"
+	}
+	if k < l {
+		return "long"
+	}
+	return "short"
+}
+
+func vhLabelValid(kind, label string) bool {
+	if kind == "same" {
+		return len(label) == 0 || strings.Count(label, label[:1]) == len(label)
+	}
+	return true
+}
+
+func vhEncodeLabel(kind, label string, m int) string {
+	k := vhLenBits(m)
+	switch kind {
+	case "short":
+		return "0" + strings.Repeat("1", len(label)) + "0" + label
+	case "long":
+		return "10" + vhU64Bits(uint64(len(label)), k) + label
+	default:
+		v := "0"
+		if len(label) > 0 {
+			v = label[:1]
+		}
+		return "11" + v + vhU64Bits(uint64(len(label)), k)
+	}
+}
+
+// vhDictBuild builds the cell of (Hashmap n X) for the given leaves (distinct keys of n bits, any order). choose
+// returns the wanted label kind for an edge; when that kind is not valid for the label or does not fit the cell the
+// builder falls back to the canonical kind. The returned cell holds the hm_edge from bit 0.
+func vhDictBuild(leaves []vhDictLeaf, n int, choose func(label string, m int) string) (*boc.Cell, error) {
+	if len(leaves) == 0 {
+		return nil, fmt.Errorf("empty Hashmap has no encoding")
+	}
+	sorted := append([]vhDictLeaf{}, leaves...)
+	sort.Slice(sorted, func(i, j int) bool { return sorted[i].Key < sorted[j].Key })
+	var build func(ls []vhDictLeaf, pos, n int) (*boc.Cell, error)
+	build = func(ls []vhDictLeaf, pos, n int) (*boc.Cell, error) {
+		first, last := ls[0].Key[pos:], ls[len(ls)-1].Key[pos:]
+		l := 0
+		for l < len(first) && first[l] == last[l] {
+			l++
+		}
+		label := first[:l]
+		kind := choose(label, n)
+		payload := 0
+		if len(ls) == 1 {
+			payload = len(ls[0].ValBits)
+		}
+		if !vhLabelValid(kind, label) || len(vhEncodeLabel(kind, label, n))+payload > 1023 {
+			kind = vhCanonicalKind(label, n)
+		}
+		bits := vhEncodeLabel(kind, label, n)
+		if len(ls) == 1 {
+			if l != n {
+				return nil, fmt.Errorf("internal: single leaf label %d != %d", l, n)
+			}
+			return vhCellFromBits(bits+ls[0].ValBits, ls[0].ValRefs...)
+		}
+		split := sort.Search(len(ls), func(i int) bool { return ls[i].Key[pos+l] == '1' })
+		left, err := build(ls[:split], pos+l+1, n-l-1)
+		if err != nil {
+			return nil, err
+		}
+		right, err := build(ls[split:], pos+l+1, n-l-1)
+		if err != nil {
+			return nil, err
+		}
+		return vhCellFromBits(bits, left, right)
+	}
+	return build(sorted, 0, n)
 }
